@@ -252,7 +252,7 @@ func startNode(dir string, atGenesis bool) *world {
 	for _, s := range []string{api.EndpointsRead, api.EndpointsStatus, api.EndpointsTransaction, api.EndpointsWallet, api.EndpointsInsecureWalletSeed, api.EndpointsNetCtrl, api.EndpointsStorage} {
 		enabled[s] = struct{}{}
 	}
-	srv, err := api.Create("127.0.0.1:0", api.Config{DisableCSRF: true, DisableCSP: true, EnabledAPISets: enabled, ReadTimeout: 30 * time.Second, WriteTimeout: 120 * time.Second}, gw)
+	srv, err := api.Create("127.0.0.1:0", api.Config{DisableCSRF: true, DisableCSP: true, EnabledAPISets: enabled, ReadTimeout: 30 * time.Second, WriteTimeout: 900 * time.Second}, gw)
 	must(err)
 	go func() { _ = srv.Serve() }()
 	wd.base = srv.Addr()
@@ -371,7 +371,7 @@ func main() {
 	// only one node per process (daemon.New registers message types process-wide), chosen by the seed's parity
 	atGenesis := seed%3 == 0
 	wd := startNode(dir, atGenesis)
-	client := &http.Client{Timeout: 100 * time.Second, Transport: &http.Transport{DisableKeepAlives: true}}
+	client := &http.Client{Timeout: 600 * time.Second, Transport: &http.Transport{DisableKeepAlives: true}}
 	// wallet life-cycles: requests that depend on what earlier ones did (create from a seed of a small pool, then unload /
 	// encrypt / decrypt / derive / recover / create again from the same seed ...), woven into the random requests
 	// ---- first, systematically: every numeric parameter of every read-only query at the ends of its range (alone, the other
@@ -432,6 +432,7 @@ func main() {
 	}
 	seeds := []string{wd.seed + " s1", wd.seed + " s2", wd.seed + " s3"}
 	lastID, lastSeed, lastPw, scenarioLeft := "", "", "", 0
+	hangs := 0
 	for i := 0; i < count; i++ {
 		rt := routes[rng.Intn(len(routes))]
 		uri := rt.URI
@@ -624,6 +625,13 @@ func main() {
 		r["scenario"] = scenario
 		must(enc.Encode(r))
 		w.Flush()
+		if r["timeout"].(bool) {
+			// ten minutes without an answer: recorded as a hang; a second one ends the run (the node may be wedged for good)
+			hangs++
+			if hangs >= 2 {
+				break
+			}
+		}
 	}
 	// ---- the probe: one request with a huge count, answered (with an error or a result) or not within 6 s
 	probes := []struct{ name, uri, form string }{
